@@ -241,7 +241,8 @@ class CliAdapter:
         if a['kind'] == 'hdr':
             ptype = 5 if a['ty'] == 'BINARY_EVENT' else 6
             id = None if a['id'] < 0 else a['id']
-            data = [{'_placeholder': True, 'num': i} for i in range(a['n'])]
+            data = [{'_placeholder': True, 'num': i}
+                    for i in range(min(a['n'], 3))]
             if ptype == 5:
                 data = [a['ev']] + data
             text = str(ptype) + str(a['n']) + '-'
